@@ -320,6 +320,93 @@ def cases(tier):
                        'dev': dev, 'slot0': slot0, 'splitdev': splitdev}
 
 
+    # deep nesting: chains of 3 (quick) / 3-4 (thorough) blocks, one inside
+    # the other, over every combination of block kinds
+    for depth in ((3,) if tier == 'quick' else (3, 4)):
+        for ci in range(len(DEEP_KINDS) ** depth):
+            yield {'fam': 'deep', 'depth': depth, 'chain': ci, 'tier': tier}
+
+
+DEEP_KINDS = ('if', 'in', 'with', 'let', 'try', 'tryboom', 'comment',
+              'ifelse')
+
+
+def deep_shape(depth, ci):
+    kinds = []
+    for _ in range(depth):
+        kinds.append(DEEP_KINDS[ci % len(DEEP_KINDS)])
+        ci //= len(DEEP_KINDS)
+    inner = [['var', N('v'), []]]
+    for k in reversed(kinds):
+        if k == 'if':
+            inner = [['if', [[N('x'), inner]], None]]
+        elif k == 'ifelse':
+            inner = [['if', [[N('nope'), []]], inner]]
+        elif k == 'in':
+            inner = [['in', N('seq'), inner, None, []]]
+        elif k == 'with':
+            inner = [['with', N('obj'), inner, []]]
+        elif k == 'let':
+            inner = [['let', [['z', N('v')]], inner]]
+        elif k == 'try':
+            inner = [['try', inner, [], None]]
+        elif k == 'tryboom':
+            inner = [['try', inner + [BOOM], [], None]]
+        else:
+            inner = [['comment', inner]]
+    s = Slots()
+    return interleave_deep(inner, s), s.n
+
+
+def interleave_deep(nodes, slots):
+    out = [slots.new()]
+    for n in nodes:
+        if n[0] == 'if' and n[2] is not None:
+            # the chain continues in the else branch
+            out.append(['if', [[r, [slots.new()]] for r, b in n[1]],
+                        interleave_deep(n[2], slots)])
+        elif n[0] in ('var', 'ent'):
+            out.append(n)
+        elif n[0] == 'if':
+            out.append(['if', [[r, interleave_deep(b, slots)]
+                               for r, b in n[1]], [slots.new()]])
+        elif n[0] == 'in':
+            out.append(['in', n[1], interleave_deep(n[2], slots),
+                        [slots.new()], n[4]])
+        elif n[0] == 'with':
+            out.append(['with', n[1], interleave_deep(n[2], slots), n[3]])
+        elif n[0] == 'let':
+            out.append(['let', n[1], interleave_deep(n[2], slots)])
+        elif n[0] == 'try':
+            out.append(['try', interleave_deep(n[1], slots),
+                        [[[], [slots.new()]]], None])
+        else:
+            out.append(['comment', interleave_deep(n[1], slots)])
+        out.append(slots.new())
+    return out
+
+
+def run_deep(res, case):
+    shape, nslots = deep_shape(case['depth'], case['chain'])
+    default = ['t%d' % i for i in range(nslots)]
+    n = nt = 0
+    variants_ = [default]
+    for frag in (('\n',) if case.get('tier') == 'quick'
+                 else ('\n', ' \n', '<', '&dt')):
+        # the same fragment in every slot (line ends after every tag)
+        variants_.append([frag + 'u%d' % i for i in range(nslots)])
+    for texts in variants_:
+        nodes = instantiate(shape, texts)
+        k = check_template(res, nodes, {'fam': 'one-tagged', 'nodes': nodes},
+                           do_split=texts is default)
+        n += k
+        nt += k
+        if res.sample is None:
+            res.sample = {'source': ast.to_source(nodes, 'dtml', {'eol': 1})}
+    res.evals = n
+    res.nt_count = nt
+
+
 _shape_cache = {}
 
 
@@ -507,6 +594,8 @@ def run(case):
     fam = case['fam']
     if fam == 'free':
         run_free(res, case)
+    elif fam == 'deep':
+        run_deep(res, case)
     elif fam == 'tagged':
         run_tagged(res, case)
     elif fam == 'file':
